@@ -7,7 +7,7 @@ import sys
 import vbuild
 from vcheck import Check, NCPU
 
-RULE = ("every name of length <= 4 (quick) / 5 (thorough) over {a, space, backslash, #, $, :, %, ~, 0xC3} that the compilers' "
+RULE = ("every name of length <= 4 (quick) / 5 (thorough) over {a, space, backslash, #, $, :, %, ~, *, ;, 0xC3} that the compilers' "
         "quoting can represent unambiguously, encoded with the reference encoder (GCC mkdeps.c / clang DependencyFile.cpp "
         "rules, with and without escaped colons), as the single dependency, as the target, between other dependencies, as "
         "a second target, and every ordered pair of names of length <= 3, each in 7 layouts (one line, continuation per "
@@ -50,6 +50,12 @@ def main(argv):
                 c.known("F16-C15", "%s [F16-C15] e.g. depfile %r (%d such depfiles)" % (f[0]["what"], bytes.fromhex(val["bsd_bad"]), val["backslash_dollar_failures"]))
             else:
                 c.violation("C15: depfile %r: %s" % (bytes.fromhex(val["bsd_bad"]), val["bsd_why"]), {"depfile_hex": val["bsd_bad"]})
+        if val.get("separator_character_failures"):
+            f = [x for x in c.findings if x["id"] == "F32-C15"]
+            if f:
+                c.known("F32-C15", "%s [F32-C15] e.g. depfile %r (%d such depfiles)" % (f[0]["what"], bytes.fromhex(val["sep_bad"]), val["separator_character_failures"]))
+            else:
+                c.violation("C15: depfile %r: %s" % (bytes.fromhex(val["sep_bad"]), val["sep_why"]), {"depfile_hex": val["sep_bad"]})
         if val["violations"]:
             why = val["first_why"]
             outs_hex = ins_hex = ""
